@@ -505,6 +505,12 @@ _MUTATING = {"append", "extend", "insert", "pop", "remove", "clear", "sort", "re
 
 
 def value_getattr(ip, obj, name):
+  import numpy as _np
+  if isinstance(obj, _np.ndarray):
+    if name in ("shape", "ndim", "size", "dtype"):
+      return getattr(obj, name)
+    if name in ("tolist", "copy", "flatten", "squeeze", "reshape", "astype"):
+      return Builtin("ndarray." + name, lambda ip_, *a, _n=name, **k: getattr(obj, _n)(*a, **k))
   if name == "__class__" and (obj is None or isinstance(obj, (bool, int, float, str, list, dict, tuple, set))):
     return ExtClass(type(obj).__name__)
   if isinstance(obj, (list, dict, set, tuple, str, frozenset)):
@@ -1058,6 +1064,11 @@ def _np_power(ip, a, b):
 
 @model("np.array", "np.asarray")
 def _np_array(ip, v, dtype=None, **k):
+  import numpy as _np
+  if isinstance(v, _np.ndarray):
+    return _np.array(v)
+  if isinstance(v, (list, tuple)) and v and all(isinstance(x, (list, tuple)) for x in v) and I._all_plain(v):
+    return _np.array(v)                 # a concrete nested list (e.g. a mask read back from a config) is a real array
   if isinstance(v, (list, tuple)):
     if all(isinstance(x, (int, SNum)) and not isinstance(x, bool) for x in v) and dtype is None:
       return NDList(v)
@@ -1119,6 +1130,9 @@ def _np_any(ip, v, *a, **k):
 
 @model("np.squeeze")
 def _np_squeeze(ip, v, axis=None):
+  import numpy as _np
+  if isinstance(v, _np.ndarray):
+    return _np.squeeze(v) if axis is None else _np.squeeze(v, axis)
   if isinstance(v, SNum) and isinstance(v.tag, dict) and "shape" in v.tag:
     tag = dict(v.tag)
     tag["shape"] = tuple(d for d in v.tag["shape"] if d != 1)
